@@ -3,4 +3,5 @@ import ArroyProofs.Properties.C01
 import ArroyProofs.Properties.C01Checker
 import ArroyProofs.Properties.C01Examples
 import ArroyProofs.Properties.Unconditional
+import ArroyProofs.Properties.Reachable
 #audit Arroy.C01
